@@ -38,13 +38,31 @@ def dbIds (s : Db) : List QId → Except Err (List Int)
 def liftE {α} (e : Except Err α) : M α := fun s => (e, s)
 def getS : M Db := fun s => (.ok s, s)
 
+/-! ### shared helpers -/
+
+/-- `insert_values_id` -/
+def insertValuesId (id : Int) (kvs : List KV) : M Unit := M.forEach kvs (insertOrReplaceKeyValue id)
+
+/-- `insert_values_new` -/
+def insertValuesNew (alias : Option String) (kvs : List KV) : M Int :=
+  M.bind insertNode fun id =>
+  M.bind (match alias with
+    | some a => insertNewAlias id a
+    | none => M.pure ()) fun _ =>
+  M.bind (M.forEach kvs (insertKeyValue id)) fun _ => M.pure id
+
+/-- `insert_edge` followed by the new edge's values -/
+def insertEdgeWithValues (f t : Int) (kvs : List KV) : M Int :=
+  M.bind (insertEdge f t) fun id =>
+  M.bind (M.forEach kvs (insertKeyValue id)) fun _ => M.pure id
+
 /-! ### insert nodes -/
 
 /-- insert-or-update branch of `InsertNodesQuery::process` (fixed: `insert_alias`) -/
 def insertNodesUpdate : List (Int × List KV) → List String → M Unit
   | [], _ => M.pure ()
   | (id, kvs) :: rest, aliases =>
-    M.bind (M.forEach kvs (insertOrReplaceKeyValue id)) fun _ =>
+    M.bind (insertValuesId id kvs) fun _ =>
     M.bind (match aliases.head? with
       | some a => insertAlias id a
       | none => M.pure ()) fun _ =>
@@ -54,7 +72,7 @@ def insertNodesUpdate : List (Int × List KV) → List String → M Unit
 def insertNodesUpdateLegacy : List (Int × List KV) → List String → M Unit
   | [], _ => M.pure ()
   | (id, kvs) :: rest, aliases =>
-    M.bind (M.forEach kvs (insertOrReplaceKeyValue id)) fun _ =>
+    M.bind (insertValuesId id kvs) fun _ =>
     M.bind (match aliases.head? with
       | some a => insertNewAlias id a
       | none => M.pure ()) fun _ =>
@@ -66,14 +84,10 @@ def insertNodesNew : List (List KV) → List String → M (List Int)
   | kvs :: rest, aliases => fun s =>
     match aliases.head?.bind (aliasValue s.aliases) with
     | some id =>
-      (M.bind (M.forEach kvs (insertOrReplaceKeyValue id)) fun _ =>
+      (M.bind (insertValuesId id kvs) fun _ =>
        M.bind (insertNodesNew rest aliases.tail) fun ids => M.pure (id :: ids)) s
     | none =>
-      (M.bind insertNode fun id =>
-       M.bind (match aliases.head? with
-         | some a => insertNewAlias id a
-         | none => M.pure ()) fun _ =>
-       M.bind (M.forEach kvs (insertKeyValue id)) fun _ =>
+      (M.bind (insertValuesNew aliases.head? kvs) fun id =>
        M.bind (insertNodesNew rest aliases.tail) fun ids => M.pure (id :: ids)) s
 
 def mkResult (ids : List Int) : M QResult := fun s =>
@@ -110,14 +124,13 @@ def edgeValues (values : QValues) (count : Nat) : Except Err (List (List KV)) :=
 
 def insertEdgesUpdate : List (Int × List KV) → M Unit
   | [] => M.pure ()
-  | (id, kvs) :: rest => M.bind (M.forEach kvs (insertOrReplaceKeyValue id)) fun _ => insertEdgesUpdate rest
+  | (id, kvs) :: rest => M.bind (insertValuesId id kvs) fun _ => insertEdgesUpdate rest
 
 /-- one `insert_edge` + its values for every (from, to, kvs) triple -/
 def insertEdgesList : List ((Int × Int) × List KV) → M (List Int)
   | [] => M.pure []
   | ((f, t), kvs) :: rest =>
-    M.bind (insertEdge f t) fun id =>
-    M.bind (M.forEach kvs (insertKeyValue id)) fun _ =>
+    M.bind (insertEdgeWithValues f t kvs) fun id =>
     M.bind (insertEdgesList rest) fun ids => M.pure (id :: ids)
 
 def insertEdges (from_ to_ ids : List QId) (values : QValues) (each : Bool) : M QResult := fun s =>
@@ -144,17 +157,6 @@ def insertEdges (from_ to_ ids : List QId) (values : QValues) (each : Bool) : M 
         | .ok vals => (M.bind (insertEdgesList (pairs.zip vals)) mkResult) s
 
 /-! ### insert values -/
-
-/-- `insert_values_id` -/
-def insertValuesId (id : Int) (kvs : List KV) : M Unit := M.forEach kvs (insertOrReplaceKeyValue id)
-
-/-- `insert_values_new` -/
-def insertValuesNew (alias : Option String) (kvs : List KV) : M Int :=
-  M.bind insertNode fun id =>
-  M.bind (match alias with
-    | some a => insertNewAlias id a
-    | none => M.pure ()) fun _ =>
-  M.bind (M.forEach kvs (insertKeyValue id)) fun _ => M.pure id
 
 /-- `insert_values` for one id; returns (count added to `result`, new element if any) -/
 def insertValues1 (q : QId) (kvs : List KV) : M (Nat × Option Int) := fun s =>
@@ -306,6 +308,45 @@ def selectAliases (s : Db) : List QId → Except Err (List Elem)
     | .ok el => match selectAliases s rest with
       | .ok es => .ok (el :: es)
       | .error e => .error e
+
+/-! ### the mutating queries as data, and a transaction body -/
+
+inductive MQuery
+  | insertNodes (count : Nat) (values : QValues) (aliases : List String) (ids : List QId)
+  | insertEdges (from_ to_ ids : List QId) (values : QValues) (each : Bool)
+  | insertValues (ids : List QId) (values : QValues)
+  | insertAliases (ids : List QId) (aliases : List String)
+  | remove (ids : List QId)
+  | removeValues (ids : List QId) (keys : List Val)
+  | removeAliases (aliases : List String)
+  | insertIndex (k : Val)
+  | removeIndex (k : Val)
+
+def MQuery.run : MQuery → M QResult
+  | .insertNodes c v a i => Db.insertNodes c v a i
+  | .insertEdges f t i v e => Db.insertEdges f t i v e
+  | .insertValues i v => Db.insertValues i v
+  | .insertAliases i a => Db.insertAliases i a
+  | .remove i => Db.removeQuery i
+  | .removeValues i k => Db.removeValues i k
+  | .removeAliases a => Db.removeAliases a
+  | .insertIndex k => Db.insertIndexQuery k
+  | .removeIndex k => Db.removeIndexQuery k
+
+/-- the same queries on the unchanged code (legacy `insert_alias` / `insert_new_alias` paths) -/
+def MQuery.runLegacy : MQuery → M QResult
+  | .insertNodes c v a i => Db.insertNodesLegacy c v a i
+  | .insertAliases i a => Db.insertAliasesLegacy i a
+  | q => q.run
+
+/-- a transaction closure running the queries with `?` -/
+def runAll : List MQuery → M Unit
+  | [] => M.pure ()
+  | q :: qs => M.bind q.run fun _ => runAll qs
+
+def runAllLegacy : List MQuery → M Unit
+  | [] => M.pure ()
+  | q :: qs => M.bind q.runLegacy fun _ => runAllLegacy qs
 
 /-! ### transactions -/
 
